@@ -260,6 +260,74 @@ func TestFreeJoinV1(t *testing.T) {
 	t.Logf("FREEJOINV1 runs=%d", runs)
 }
 
+// TestFreeJoinV1HeldAtStop: the consumer of a no-copy v1 join holds a slice, the discipline is stopped (or cancelled) from another
+// goroutine before the release signal, the producer still has elements queued: the held slice is the consumer's for good ("never
+// touched again"), it keeps writing into it while the discipline winds down.
+func TestFreeJoinV1HeldAtStop(t *testing.T) {
+	rnd := rand.New(rand.NewSource(int64(envInt("VERIF_SEED", 1))*31 + 5))
+	runs := 0
+	for i := 0; i < envInt("FREE_RUNS", 60); i++ {
+		in := make(chan int, 1+rnd.Intn(4))
+		released := make(chan struct{})
+		ctx, cancel := context.WithCancel(context.Background())
+		to := []time.Duration{0, 0, 50 * time.Millisecond}[rnd.Intn(3)]
+		d, err := v1join.New(v1join.Opts[int]{Ctx: ctx, Input: in, JoinSize: uint(1 + rnd.Intn(4)), Released: released, Timeout: to})
+		if err != nil {
+			t.Fatal(err)
+		}
+		quit := make(chan struct{})
+		var wg sync.WaitGroup
+		wg.Add(1)
+		go func() { // producer: keeps the input full
+			defer wg.Done()
+			for k := 1; ; k++ {
+				select {
+				case in <- k:
+				case <-quit:
+					return
+				}
+			}
+		}()
+		hold := 1 + rnd.Intn(3) // the slice that will be held
+		byCancel := rnd.Intn(2) == 0
+		var held []int
+		n := 0
+		for s := range d.Output() {
+			n++
+			if n < hold {
+				released <- struct{}{}
+				continue
+			}
+			if held == nil {
+				held = s
+				wg.Add(1)
+				go func() {
+					defer wg.Done()
+					if byCancel {
+						cancel()
+					}
+					d.Stop()
+				}()
+			}
+			for j := range held { // never released: the consumer's own memory from now on
+				held[j]++
+			}
+		}
+		for k := 0; k < 50; k++ {
+			for j := range held {
+				held[j]++
+			}
+			time.Sleep(2 * time.Microsecond)
+		}
+		close(quit)
+		wg.Wait()
+		cancel()
+		noLeak(t, "join v1 held at stop")
+		runs++
+	}
+	t.Logf("FREEJOINV1HELD runs=%d", runs)
+}
+
 func TestFreeLimit(t *testing.T) {
 	rnd := rand.New(rand.NewSource(int64(envInt("VERIF_SEED", 1))*31 + 4))
 	runs := 0
